@@ -184,6 +184,11 @@ fn main() {
                             .await;
                         });
                         let _ = dropped.await;
+                        // its request (if it got as far as being sent) is waited for and set aside before the judged login starts
+                        let t0 = std::time::Instant::now();
+                        while server.seen_count() == 0 && t0.elapsed() < Duration::from_secs(3) {
+                            tokio::time::sleep(Duration::from_millis(20)).await;
+                        }
                         tokio::time::sleep(Duration::from_millis(400)).await;
                         let _ = server.take().await;
                     }
